@@ -476,6 +476,18 @@ func c01dLoopTailVanishes(s pjs.IStmt) bool {
 		return false
 	}
 	last := list[len(list)-1]
+	if in, ok := last.(*pjs.IfStmt); ok && in.Else != nil {
+		// the else branch of the last statement can disappear, leaving an if without else
+		switch d := in.Else.(type) {
+		case *pjs.VarDecl:
+			if d.TokenType == pjs.VarToken {
+				return true
+			}
+		case *pjs.EmptyStmt, *pjs.BlockStmt:
+			return true
+		}
+		return c01dLoopTailVanishes(in.Else)
+	}
 	if len(list) >= 2 {
 		switch d := last.(type) {
 		case *pjs.VarDecl:
